@@ -31,8 +31,9 @@ def verify_unit(name, vacuity=False, seed=None, rlimit=None, suffix=""):
         f.write(text)
     an = vxlib.Analysis(text)
     extra = []
-    if vacuity and unit.modules:
-        for mod in unit.modules:
+    only = getattr(unit, "verify_only", None)
+    if (vacuity and unit.modules) or only:
+        for mod in (only or unit.modules):
             extra += ["--verify-module", mod]
     vres = vxlib.run_verus(path, extra=extra, rlimit=rlimit or getattr(m, "RLIMIT", None), seed=seed, log_air=not vacuity,
                             multiple_errors=(6 if vacuity else 40))
